@@ -6,6 +6,8 @@ _Bool nondet_bool(void);
 /* ghost: allocation log of the stubs */
 int g_icalloc_calls, g_malloc_calls; int_t g_icalloc_n; size_t g_malloc_bytes; void *g_icalloc_obj, *g_malloc_obj;
 int_t *intCalloc(int_t n) { g_icalloc_calls++; g_icalloc_n = n; g_icalloc_obj = nondet_bool() ? (void*)0 : __CPROVER_allocate((size_t)n * sizeof(int_t), 0); return g_icalloc_obj; }
+int g_free_calls; void *g_freed_obj;
+void superlu_free(void *p) { g_free_calls++; g_freed_obj = p; }
 void *superlu_malloc(size_t size) { g_malloc_calls++; g_malloc_bytes = size; g_malloc_obj = nondet_bool() ? (void*)0 : __CPROVER_allocate(size, 0); return g_malloc_obj; }
 /* inputs */
 int_t in_n, in_w, in_maxsuper, in_rowblk; int_t *in_iworkptr; @T@ *in_dworkptr;
